@@ -232,6 +232,8 @@ class SimProcessHandle(object):
         proc.pending = ("begin",)
         w.procs.append(proc)
         self._proc = proc
+        proc.parent_proc = w._me()
+        w.__dict__.setdefault("handles", []).append(self)
         w._log(w._me(), "start", proc.pid)
 
     def join(self, timeout=None):
@@ -291,6 +293,13 @@ class _SimContext(object):
     def cpu_count(self):
         return 4
 
+    def active_children(self):
+        # the calling process's children that have not exited yet (a read-only look at the world, hence a yield point)
+        w = self._w
+        w._yield(("ro", "active_children"))
+        me = w._me()
+        return [h for h in w.__dict__.get("handles", []) if h._proc is not None and not h._proc.exited and getattr(h._proc, "parent_proc", None) is me]
+
     def __getattr__(self, name):
         raise SimUnsupported(f"multiprocessing context attribute {name}")
 
@@ -311,7 +320,6 @@ _UNSUPPORTED = [
     "Array",
     "RawValue",
     "RawArray",
-    "active_children",
     "set_start_method",
 ]
 
@@ -673,6 +681,7 @@ class SimWorld(object):
             "get_start_method": ctx.get_start_method,
             "get_context": lambda method=None: ctx,
             "cpu_count": ctx.cpu_count,
+            "active_children": ctx.active_children,
         }
 
         def unsupported(name):
